@@ -9,6 +9,7 @@ Two correspondence streams (DESIGN.md §7 C14):
 The oracle is brute force (exact Fractions for stream (i), float64 with a 1e-4 relative guard band
 around the radius for stream (ii)) and never looks at the Lean model.
 """
+import ast
 import math
 import os
 import re
@@ -128,10 +129,334 @@ def _pyx_functions(text):
 
 _STR_LIT = re.compile(r"""[fFrRbBuU]{0,2}("([^"\\]|\\.)*"|'([^'\\]|\\.)*')""")
 
-PYX_FUNCS = ["__cinit__", "create_adjacency_matrix", "get_atoms", "get_atoms_in_cells", "_get_atoms_in_cells",
-             "_find_adjacent_atoms", "_post_process", "_get_cell_index", "_as_mask", "_check_coord", "_empty_result",
-             "_prepare_vectorization", "squared_distance"]
+_IDENT = re.compile(r"(?<![\w.])([A-Za-z_]\w*)")
+PYX_ENTRY = ["__cinit__", "create_adjacency_matrix", "get_atoms", "get_atoms_in_cells"]
 BOX_FUNCS = ["repeat_box_coord", "move_inside_box", "coord_to_fraction", "fraction_to_coord", "is_orthogonal"]
+
+
+def _split_top(s, sep=","):
+    out, depth, cur = [], 0, ""
+    for ch in s:
+        if ch in "([{":
+            depth += 1
+        elif ch in ")]}":
+            depth -= 1
+        if ch == sep and depth == 0:
+            out.append(cur)
+            cur = ""
+        else:
+            cur += ch
+    if cur.strip():
+        out.append(cur)
+    return out
+
+
+def _header_parts(header):
+    """(prefix before the name, name, [(full parameter text, parameter name)])"""
+    m = re.match(r"(.*?)(\w+)\s*\((.*)\)\s*:$", header)
+    if not m:
+        raise ValueError("unparsable function header: " + header)
+    params = []
+    for p in _split_top(m.group(3)):
+        t = p.strip()
+        core = t.split("=")[0].strip()
+        core = re.sub(r"\s+not None$", "", core)
+        names = re.findall(r"[A-Za-z_]\w*", core)
+        if names:
+            params.append((t, names[-1]))
+    return m.group(1), m.group(2), params
+
+
+def _locals_of(params, body, keep):
+    """local names of a .pyx function in order of first binding (parameters first, except the public ones in `keep`)."""
+    names = [n for _t, n in params if n != "self" and n not in keep]
+    def add(n):
+        if n not in names and n != "self" and n not in keep:
+            names.append(n)
+    for _ind, st in body:
+        m = re.match(r"cdef\s+(.*)$", st)
+        if m and not st.endswith(":"):
+            chunks = _split_top(m.group(1))
+            for c in chunks:
+                before = c.split("=")[0]
+                ids = re.findall(r"[A-Za-z_]\w*", before)
+                if ids:
+                    add(ids[-1])
+            continue
+        m = re.match(r"for\s+(.+?)\s+in\s", st)
+        if m:
+            for n in re.findall(r"[A-Za-z_]\w*", m.group(1)):
+                add(n)
+            continue
+        m = re.match(r"([A-Za-z_]\w*(?:\s*,\s*[A-Za-z_]\w*)*)\s*(?:=|\+=|-=|\*=|/=|%=)(?!=)", st)
+        if m:
+            for n in re.findall(r"[A-Za-z_]\w*", m.group(1)):
+                add(n)
+    return names
+
+
+def _normalise_pyx(fns):
+    """Alpha-normalised text of the functions reachable from the public entry points of celllist.pyx.
+
+    Private helpers (cdef functions and `_name` functions/methods defined in the module) are named H0, H1, … in order of their
+    first call; private attributes `self._name` A0, A1, …; locals and the parameters of private helpers v0, v1, … per function in
+    order of first binding; public names (entry points, their parameters, imported names, numpy) stay as they are.  Comments,
+    docstrings, blank lines are gone already; string literals -> S; the arguments of `raise X(...)` are dropped."""
+    def is_private(name, header):
+        return header.lstrip().startswith(("cdef", "cpdef")) or (name.startswith("_") and not name.startswith("__"))
+    helpers, attrs, order, out = {}, {}, [], []
+    queue = [(n, None) for n in PYX_ENTRY]
+    done = set()
+
+    def pick(name, method):
+        cands = fns.get(name) or []
+        for h, b in cands:
+            is_m = bool(re.search(r"\(\s*self\b", h))
+            if method is None or is_m == method:
+                return h, b
+        return None
+    while queue:
+        name, method = queue.pop(0)
+        got = pick(name, method)
+        if got is None:
+            raise ValueError(f"function {name} not found in celllist.pyx")
+        header, body = got
+        key = (name, bool(re.search(r"\(\s*self\b", header)))
+        if key in done:
+            continue
+        done.add(key)
+        private = is_private(name, header)
+        prefix, _nm, params = _header_parts(header)
+        keep = set() if private else {n for _t, n in params}
+        local = _locals_of(params, body, keep)
+        lmap = {n: f"v{i}" for i, n in enumerate(local)}
+
+        def sub(text):
+            text = _STR_LIT.sub("S", text)
+            text = re.sub(r"^raise (\w+)\(.*\)$", r"raise \1", text)
+            # private attributes
+            def attr(m):
+                a = m.group(1)
+                if a in fns and any(re.search(r"\(\s*self\b", h) for h, _b in fns[a]) and re.match(r"\s*\(", text[m.end():]):
+                    return m.group(0)          # a method call, handled below
+                if a not in attrs:
+                    attrs[a] = f"A{len(attrs)}"
+                return "self." + attrs[a]
+            text = re.sub(r"\bself\.(_\w+)", attr, text)
+            # helper calls
+            def call(m):
+                pre, nm = m.group(1), m.group(2)
+                meth = pre == "self."
+                cands = fns.get(nm)
+                if not cands:
+                    return m.group(0)
+                tgt = pick(nm, meth)
+                if tgt is None or not is_private(nm, tgt[0]):
+                    if tgt is not None and (nm, meth) not in done and all(q[0] != nm for q in queue):
+                        queue.append((nm, meth))
+                    return m.group(0)
+                k = (nm, meth)
+                if k not in helpers:
+                    helpers[k] = f"H{len(helpers)}"
+                    queue.append((nm, meth))
+                return pre + helpers[k] + "("
+            text = re.sub(r"((?:self\.)?)\b([A-Za-z_]\w*)\s*\(", lambda m: call(m) if (m.start() == 0 or text[m.start() - 1] != ".") or m.group(1) else m.group(0), text)
+            # locals (not attributes, not keyword arguments `name=value` inside calls)
+            def loc(m):
+                n = m.group(1)
+                if n not in lmap:
+                    return n
+                rest = text[m.end():]
+                if rest.startswith("=") and not rest.startswith("==") and m.start() > 0 and text[m.start() - 1] in "(, " \
+                        and not re.match(r"(cdef\s|[\w, ]*$)", text[:m.start()]):
+                    return n
+                return lmap[n]
+            return _IDENT.sub(loc, text)
+        if private:
+            hname = helpers.get(key) or helpers.setdefault(key, f"H{len(helpers)}")
+            ptxt = ", ".join(_IDENT.sub(lambda m: lmap.get(m.group(1), m.group(1)), _STR_LIT.sub("S", t)) for t, _n in params)
+            head = f"{prefix}{hname}({ptxt}):"
+            ident = "pyx_" + hname
+        else:
+            head = _STR_LIT.sub("S", header)
+            ident = "pyx_" + name.strip("_")
+        out.append((ident, head, [(ind, sub(st)) for ind, st in body]))
+    return out, helpers, attrs
+
+
+class _BoxNorm(ast.NodeTransformer):
+    def __init__(self, params):
+        self.map = {}
+        self.params = set(params)
+
+    def _name(self, n):
+        if n in self.params:
+            return n
+        if n not in self.map:
+            self.map[n] = f"v{len(self.map)}"
+        return self.map[n]
+
+    def visit_Constant(self, node):
+        return ast.copy_location(ast.Name(id="S", ctx=ast.Load()), node) if isinstance(node.value, str) else node
+
+    def visit_JoinedStr(self, node):
+        return ast.copy_location(ast.Name(id="S", ctx=ast.Load()), node)
+
+    def visit_Raise(self, node):
+        if isinstance(node.exc, ast.Call):
+            node.exc = node.exc.func
+        return node
+
+
+def _negate(e):
+    """logical negation with the `not` pushed inwards (De Morgan, flipped comparisons)"""
+    flip = {ast.Eq: ast.NotEq, ast.NotEq: ast.Eq, ast.Lt: ast.GtE, ast.GtE: ast.Lt, ast.Gt: ast.LtE, ast.LtE: ast.Gt,
+            ast.Is: ast.IsNot, ast.IsNot: ast.Is, ast.In: ast.NotIn, ast.NotIn: ast.In}
+    if isinstance(e, ast.UnaryOp) and isinstance(e.op, ast.Not):
+        return e.operand
+    if isinstance(e, ast.BoolOp):
+        return ast.BoolOp(op=ast.Or() if isinstance(e.op, ast.And) else ast.And(), values=[_negate(v) for v in e.values])
+    if isinstance(e, ast.Compare) and len(e.ops) == 1 and type(e.ops[0]) in flip:
+        return ast.Compare(left=e.left, ops=[flip[type(e.ops[0])]()], comparators=e.comparators)
+    return ast.UnaryOp(op=ast.Not(), operand=e)
+
+
+def _canonical_control_flow(stmts, in_loop=False):
+    """Equivalent control flow in one shape: `for a, b, c in itertools.product(R, repeat=3)` (or product(R, R, R)) becomes three
+    nested loops; inside a loop `if C: continue` followed by the rest of the body becomes `if not C: <rest>`."""
+    import copy
+    out = []
+    i = 0
+    while i < len(stmts):
+        st = stmts[i]
+        if isinstance(st, ast.For) and isinstance(st.iter, ast.Call) and isinstance(st.target, ast.Tuple) and not st.orelse:
+            f = st.iter.func
+            name = f.attr if isinstance(f, ast.Attribute) else getattr(f, "id", None)
+            if name == "product":
+                n = len(st.target.elts)
+                rep = [k.value for k in st.iter.keywords if k.arg == "repeat"]
+                args = list(st.iter.args)
+                if rep and len(args) == 1 and isinstance(rep[0], ast.Constant) and rep[0].value == n:
+                    args = [copy.deepcopy(args[0]) for _ in range(n)]
+                if len(args) == n and not (rep and len(st.iter.args) != 1):
+                    body = st.body
+                    for tgt, it in reversed(list(zip(st.target.elts, args))):
+                        body = [ast.For(target=tgt, iter=it, body=body, orelse=[], type_comment=None)]
+                    st = body[0]
+        if isinstance(st, (ast.For, ast.While)):
+            st.body = _canonical_control_flow(st.body, True)
+        elif isinstance(st, ast.If):
+            if (in_loop and len(st.body) == 1 and isinstance(st.body[0], ast.Continue) and not st.orelse and i + 1 < len(stmts)):
+                rest = _canonical_control_flow(stmts[i + 1:], in_loop)
+                out.append(ast.If(test=_negate(st.test), body=rest, orelse=[]))
+                return out
+            st.body = _canonical_control_flow(st.body, in_loop)
+            st.orelse = _canonical_control_flow(st.orelse, in_loop)
+        out.append(st)
+        i += 1
+    return out
+
+
+def _inline_temps(fn, body):
+    """`t = expr` immediately followed by the only statement that reads `t` (bound once in the whole function): substitute.
+    (so that naming or un-naming an intermediate value is not a difference)"""
+    def counts():
+        st, ld = {}, {}
+        for nd in ast.walk(fn):
+            if isinstance(nd, ast.Name):
+                d = st if isinstance(nd.ctx, ast.Store) else ld
+                d[nd.id] = d.get(nd.id, 0) + 1
+        return st, ld
+    params = {a.arg for a in fn.args.args + fn.args.kwonlyargs}
+
+    def block(stmts):
+        changed = True
+        while changed:
+            changed = False
+            st, ld = counts()
+            for i in range(len(stmts) - 1):
+                a = stmts[i]
+                if (isinstance(a, ast.Assign) and len(a.targets) == 1 and isinstance(a.targets[0], ast.Name)):
+                    n = a.targets[0].id
+                    nxt = stmts[i + 1]
+                    head = nxt
+                    if isinstance(nxt, (ast.For, ast.If, ast.While)):
+                        continue
+                    uses = [x for x in ast.walk(head) if isinstance(x, ast.Name) and x.id == n and isinstance(x.ctx, ast.Load)]
+                    if n not in params and st.get(n) == 1 and ld.get(n) == 1 and len(uses) == 1:
+                        class Sub(ast.NodeTransformer):
+                            def visit_Name(self, node):
+                                return a.value if (node.id == n and isinstance(node.ctx, ast.Load)) else node
+                        stmts[i + 1] = Sub().visit(nxt)
+                        del stmts[i]
+                        changed = True
+                        break
+        for s_ in stmts:
+            for fld in ("body", "orelse"):
+                if isinstance(getattr(s_, fld, None), list) and getattr(s_, fld):
+                    block(getattr(s_, fld))
+        return stmts
+    return block(list(body))
+
+
+def _normalise_box(src):
+    """box.py functions: annotations, docstrings, `assert`s, raise-arguments dropped; locals v0, v1, … in order of first
+    binding; public function and parameter names kept."""
+    tree = ast.parse(src)
+    found = {n.name: n for n in tree.body if isinstance(n, ast.FunctionDef)}
+    out = []
+    for name in BOX_FUNCS:
+        fn = found.get(name)
+        if fn is None:
+            raise ValueError(f"function {name} not found in box.py")
+        for a in fn.args.args + fn.args.kwonlyargs:
+            a.annotation = None
+        fn.returns = None
+        params = [a.arg for a in fn.args.args + fn.args.kwonlyargs]
+        body = fn.body[1:] if ast.get_docstring(fn) else fn.body
+        fn.body = _canonical_control_flow(list(body))
+        ast.fix_missing_locations(fn)
+        body = _inline_temps(fn, fn.body)
+        bound = []
+        for nd in ast.walk(ast.Module(body=body, type_ignores=[])):
+            if isinstance(nd, ast.Name) and isinstance(nd.ctx, ast.Store) and nd.id not in bound and nd.id not in params:
+                bound.append(nd.id)
+        norm = _BoxNorm(params)
+        # order of first binding in source order
+        stores = sorted(((nd.lineno, nd.col_offset, nd.id) for nd in ast.walk(ast.Module(body=body, type_ignores=[]))
+                         if isinstance(nd, ast.Name) and isinstance(nd.ctx, ast.Store) and nd.id not in params))
+        for _l, _c, n in stores:
+            norm._name(n)
+        locs = set(norm.map)
+
+        class Ren(ast.NodeTransformer):
+            def visit_Name(self, node):
+                if node.id in locs:
+                    node.id = norm.map[node.id]
+                return node
+        stmts = []
+
+        def walk(nodes, ind):
+            for nd in nodes:
+                if isinstance(nd, ast.Assert):
+                    continue
+                if isinstance(nd, (ast.For, ast.If, ast.While)):
+                    def up(x):
+                        return ast.unparse(Ren().visit(norm.visit(x)))
+                    if isinstance(nd, ast.For):
+                        hd = f"for {up(nd.target)} in {up(nd.iter)}:"
+                    else:
+                        hd = ("if " if isinstance(nd, ast.If) else "while ") + up(nd.test) + ":"
+                    stmts.append((ind, hd))
+                    walk(nd.body, ind + 4)
+                    if nd.orelse:
+                        stmts.append((ind, "else:"))
+                        walk(nd.orelse, ind + 4)
+                else:
+                    stmts.append((ind, ast.unparse(Ren().visit(norm.visit(nd))).replace("\n", " ")))
+        walk(body, 4)
+        out.append(("box_" + name, f"def {name}({ast.unparse(fn.args)}):", stmts))
+    return out
 
 
 def _lean_str(x):
@@ -139,114 +464,123 @@ def _lean_str(x):
 
 
 def _source_functions():
-    """(lean identifier, header, [(indent, statement)]) for every modelled function of celllist.pyx (statement text,
-    string literals replaced by S, comments/docstrings/blank lines dropped) and of box.py (ast.unparse per statement)."""
-    import ast
+    """Alpha-normalised modelled functions: (lean identifier, header, [(indent, statement)]), plus the helper-name map."""
     from common import paths
-    out = []
-    fns = _pyx_functions(open(os.path.join(paths.SRC, "biotite/structure/celllist.pyx")).read())
-    for name in PYX_FUNCS:
-        cands = fns.get(name)
-        if not cands:
-            raise ValueError(f"function {name} not found in celllist.pyx")
-        if name == "_check_coord":      # the module-level validator, not the cdef bounds helper of the class
-            cands = [c for c in cands if c[0].startswith("def _check_coord(coord)")]
-            if not cands:
-                raise ValueError("module-level _check_coord(coord) not found in celllist.pyx")
-        header, body = cands[0]
-        ident = "pyx_" + (name.strip("_") if name.startswith("__") else ("priv" + name if name.startswith("_") else name))
-        out.append((ident, _STR_LIT.sub("S", header),
-                    [(ind, _STR_LIT.sub("S", st)) for ind, st in body]))
-    tree = ast.parse(open(os.path.join(paths.SRC, "biotite/structure/box.py")).read())
-
-    class NoStr(ast.NodeTransformer):
-        def visit_Constant(self, node):
-            return ast.copy_location(ast.Name(id="S", ctx=ast.Load()), node) if isinstance(node.value, str) else node
-
-        def visit_JoinedStr(self, node):
-            return ast.copy_location(ast.Name(id="S", ctx=ast.Load()), node)
-    found = {n.name: n for n in tree.body if isinstance(n, ast.FunctionDef)}
-    for name in BOX_FUNCS:
-        fn = found.get(name)
-        if fn is None:
-            raise ValueError(f"function {name} not found in box.py")
-        body = fn.body[1:] if ast.get_docstring(fn) else fn.body
-        stmts = []
-
-        def walk(nodes, ind):
-            for nd in nodes:
-                nd = NoStr().visit(nd)
-                if isinstance(nd, (ast.For, ast.If, ast.While)):
-                    head = ast.unparse(nd).split("\n")[0]
-                    stmts.append((ind, head))
-                    walk(nd.body, ind + 4)
-                    if nd.orelse:
-                        stmts.append((ind, "else:"))
-                        walk(nd.orelse, ind + 4)
-                else:
-                    stmts.append((ind, ast.unparse(nd).replace("\n", " ")))
-        walk(body, 4)
-        out.append(("box_" + name, f"def {name}({ast.unparse(fn.args)}):", stmts))
-    return out
+    pyx, helpers, attrs = _normalise_pyx(_pyx_functions(open(os.path.join(paths.SRC, "biotite/structure/celllist.pyx")).read()))
+    box = _normalise_box(open(os.path.join(paths.SRC, "biotite/structure/box.py")).read())
+    return pyx + box, helpers, attrs
 
 
-def _source_lean(indent_expected=False):
-    """Lean definitions `Gen.C14.<id> : Fn` (and, for Props, the same literals as expected values)."""
-    lines = []
-    for ident, header, stmts in _source_functions():
-        lines.append((ident, "⟨" + _lean_str(header) + ", [" + ", ".join(f"({i}, {_lean_str(t)})" for i, t in stmts) + "]⟩"))
-    return lines
+def _fn_literal(header, stmts):
+    return "⟨" + _lean_str(header) + ", [" + ", ".join(f"({i}, {_lean_str(t)})" for i, t in stmts) + "]⟩"
 
 
 def gen_lean():
-    from common import paths
-    src = open(os.path.join(paths.SRC, "biotite/structure/celllist.pyx")).read()
-    box = open(os.path.join(paths.SRC, "biotite/structure/box.py")).read()
+    """Gen/C14.lean: (1) facts parsed from the alpha-normalised functions (found structurally, not by private name),
+    (2) the alpha-normalised text of every modelled function.  Raises (= broken tie) when a construct is not found."""
+    fns, helpers, attrs = _source_functions()
+    by_id = {ident: (head, body) for ident, head, body in fns}
 
-    def need(pat, text, what, flags=0):
-        m = re.search(pat, text, flags)
+    def stmts(ident):
+        return [t for _i, t in by_id[ident][1]]
+
+    def find_fn(pred, what):
+        hits = [ident for ident, _h, body in fns if ident.startswith("pyx_") and pred([t for _i, t in body])]
+        if len(hits) != 1:
+            raise ValueError(f"construct not found (or ambiguous, {len(hits)} candidates): {what}")
+        return hits[0]
+
+    def lin(expr):
+        m = re.fullmatch(r"(\w+)([+-])(\w+)(?:([+-])(\d+))?", expr.replace(" ", ""))
         if not m:
-            raise ValueError("construct not found: " + what)
-        return m
+            raise ValueError(f"window bound {expr!r} is not of the form x±r±c")
+        c = int(m.group(5)) * (1 if m.group(4) == "+" else -1) if m.group(5) else 0
+        return m.group(1), (1 if m.group(2) == "+" else -1), m.group(3), c
 
-    def lin(expr, var, par):
-        """coefficients of `var ± par ± const` written as e.g. i-cell_r / i+cell_r+1 -> (sign of par, const)"""
-        e = expr.replace(" ", "")
-        m = re.fullmatch(re.escape(var) + r"([+-])" + re.escape(par) + r"(?:([+-])(\d+))?", e)
-        if not m:
-            raise ValueError(f"window bound {expr!r} is not of the form {var}±{par}±c")
-        sgn = 1 if m.group(1) == "+" else -1
-        c = int(m.group(3)) * (1 if m.group(2) == "+" else -1) if m.group(3) else 0
-        return sgn, c
+    # --- the window scan: the function with three nested clipped range loops
+    loop_re = re.compile(r"for (\w+) in range\(([^,]+), ?([^)]+)\):")
+    clip_re = re.compile(r"if \((\w+) (>=|>) (-?\d+) and (\w+) (<|<=) (\w+)\.shape\[(\d)\]\):")
 
-    axes = []
-    for var, shape in (("i", 0), ("j", 1), ("k", 2)):
-        m = need(r"for adj_%s in range\(([^,]+),([^)]+)\):\s*\n\s*if \(adj_%s (>=|>) (\-?\d+) and adj_%s (<|<=) cells\.shape\[(\d)\]\):"
-                 % (var, var, var), src, f"window loop over adj_{var}")
-        lo = lin(m.group(1), var, "cell_r")
-        hi = lin(m.group(2), var, "cell_r")
-        axes.append((lo, hi, m.group(3), int(m.group(4)), m.group(5), int(m.group(6))))
+    def window_of(ss):
+        out = []
+        for a, b in zip(ss, ss[1:]):
+            m, c = loop_re.fullmatch(a), clip_re.fullmatch(b)
+            if m and c and c.group(1) == m.group(1) == c.group(4):
+                out.append((m, c))
+        return out
+    scan_id = find_fn(lambda ss: len(window_of(ss)) == 3, "window scan (three nested clipped range loops)")
+    ss = stmts(scan_id)
+    axes, bases, radii = [], [], set()
+    for m, c in window_of(ss):
+        b1, s1, r1, c1 = lin(m.group(2))
+        b2, s2, r2, c2 = lin(m.group(3))
+        if b1 != b2 or r1 != r2:
+            raise ValueError("window bounds of one axis use different variables")
+        bases.append(b1)
+        radii.add(r1)
+        axes.append(((s1, c1), (s2, c2), c.group(2), int(c.group(3)), c.group(5), int(c.group(7))))
+    if len(radii) != 1:
+        raise ValueError("the three window loops do not share one cell radius variable")
+    # the loop centres are the three outputs of the cell-index helper, in order
+    call = next((re.fullmatch(r"self\.(H\d+)\((\w+), (\w+), (\w+), &(\w+), &(\w+), &(\w+)\)", t) for t in ss
+                 if re.fullmatch(r"self\.(H\d+)\((\w+), (\w+), (\w+), &(\w+), &(\w+), &(\w+)\)", t)), None)
+    if call is None or [call.group(5), call.group(6), call.group(7)] != bases:
+        raise ValueError("window loops are not centred on the outputs of the cell-index helper in axis order")
+    idx_id = "pyx_" + call.group(1)
     idx = []
-    for var, coordv, ax in (("i", "x", 0), ("j", "y", 1), ("k", "z", 2)):
-        m = need(r"%s\[0\] = <int>\(\((\w) - self\._min_coord\[(\d)\]\) / self\._cellsize\)" % var, src, f"_get_cell_index {var}")
-        idx.append((var, m.group(1), int(m.group(2))))
-    m = need(r"if sq_dist (<=|<|>=|>) sq_radius:", src, "distance filter")
-    cmp_ = m.group(1)
-    m = need(r"cell_count = \(\(\(max_coord - min_coord\) / cell_size\) ?\+ ?(\d+)\)\.astype\(int\)", src, "cell_count")
-    plus = int(m.group(1))
-    m = need(r"cdef int length = \((\d+)\*max_cell_radius \+ (\d+)\)\*\*(\d+) \* self\._max_cell_length", src, "buffer length")
-    buf = tuple(int(g) for g in m.groups())
-    ceils = re.findall(r"np\.ceil\(radius(?:\[0\])? / self\._cellsize\)", src)
+    mins, sizes = set(), set()
+    head = by_id[idx_id][0]
+    params = re.findall(r"\b(v\d+)\b", head)
+    for t in stmts(idx_id):
+        m = re.fullmatch(r"(v\d+)\[0\] = <int>\(\((v\d+) - self\.(A\d+)\[(\d)\]\) / self\.(A\d+)\)", t)
+        if not m:
+            raise ValueError("cell-index helper: statement is not `out[0] = <int>((x - self.min[axis]) / self.cellsize)`: " + t)
+        idx.append((params.index(m.group(1)), params.index(m.group(2)), int(m.group(4))))
+        mins.add(m.group(3))
+        sizes.add(m.group(5))
+    if len(idx) != 3 or len(mins) != 1 or len(sizes) != 1:
+        raise ValueError("cell-index helper does not consist of three statements on one origin and one cell size")
+    # --- distance filter in get_atoms: `d = H(x1,y1,z1,x2,y2,z2)` then `if d <= r2:`
+    ga = stmts("pyx_get_atoms")
+    dv = next((re.fullmatch(r"(v\d+) = H\d+\((?:v\d+, ){5}v\d+\)", t) for t in ga if re.fullmatch(r"(v\d+) = H\d+\((?:v\d+, ){5}v\d+\)", t)), None)
+    if dv is None:
+        raise ValueError("construct not found: squared distance helper call in get_atoms")
+    cm = [re.fullmatch(r"if (v\d+) (<=|<|>=|>) (v\d+):", t) for t in ga]
+    cm = [m for m in cm if m and m.group(1) == dv.group(1)]
+    if len(cm) != 1:
+        raise ValueError("construct not found: distance filter `if sq_dist ? sq_radius`")
+    cmp_ = cm[0].group(2)
+    ceils = [t for t in ga if re.search(r"np\.ceil\(radius(?:\[0\])? / self\.%s\)" % next(iter(sizes)), t)]
     if len(ceils) != 2:
-        raise ValueError("construct not found: np.ceil(radius / self._cellsize) (twice)")
-    need(r"indices\[indices != -1\] %= self\._orig_length", src, "periodic index remainder")
-    m = need(r"def repeat_box_coord\(coord, box, amount=(\d+)\):", box, "repeat_box_coord default amount")
+        raise ValueError("construct not found: np.ceil(radius / self._cellsize) (per-query and scalar)")
+    # --- constructor: cell_count
+    cc = [re.fullmatch(r"v\d+ = \(\(\(v\d+ - v\d+\) / cell_size\) ?\+ ?(\d+)\)\.astype\(int\)", t) for t in stmts("pyx_cinit")]
+    cc = [m for m in cc if m]
+    if len(cc) != 1:
+        raise ValueError("construct not found: cell_count = ((max - min) / cell_size + 1).astype(int)")
+    plus = int(cc[0].group(1))
+    # --- result buffer length
+    buf = None
+    for ident, _h, body in fns:
+        for _i, t in body:
+            m = re.fullmatch(r"cdef int v\d+ = \((\d+)\*v\d+ \+ (\d+)\)\*\*(\d+) \* self\.A\d+", t)
+            if m:
+                buf = tuple(int(g) for g in m.groups())
+    if buf is None:
+        raise ValueError("construct not found: cdef int length = (2*max_cell_radius + 1)**3 * self._max_cell_length")
+    if not any(re.fullmatch(r"(v\d+)\[\1 != -1\] %= self\.A\d+", t) for _id, _h, body in fns for _i, t in body):
+        raise ValueError("construct not found: indices[indices != -1] %= self._orig_length")
+    # --- box.py
+    rb_head, rb_body = by_id["box_repeat_box_coord"]
+    m = re.search(r"amount=(\d+)\)", rb_head)
+    if not m:
+        raise ValueError("construct not found: default of repeat_box_coord(amount)")
     amount = int(m.group(1))
-    rng = re.findall(r"for ([ijk]) in range\(-amount, amount \+ 1\):", box)
-    if rng != ["i", "j", "k"]:
-        raise ValueError("construct not found: repeat_box_coord translation loops")
-    mb = need(r"def move_inside_box\(.*?(?=\ndef )", box, "move_inside_box", re.S)
-    need(r"= \w+ % 1\b", mb.group(0), "move_inside_box remainder `% 1`")
+    loops = [(i, t) for i, t in rb_body if re.fullmatch(r"for v\d+ in range\(-amount, amount \+ 1\):", t)]
+    if len(loops) != 3 or [i for i, _t in loops] != [loops[0][0], loops[0][0] + 4, loops[0][0] + 8]:
+        raise ValueError("construct not found: three nested loops over range(-amount, amount + 1) in repeat_box_coord")
+    if not any("% 1" in t for _i, t in by_id["box_move_inside_box"][1]):
+        raise ValueError("construct not found: `% 1` in move_inside_box")
 
     def b(x):
         return "true" if x else "false"
@@ -268,8 +602,8 @@ def gen_lean():
         "def window : List Axis := [" + ", ".join(
             f"⟨{lo[0]}, {lo[1]}, {hi[0]}, {hi[1]}, {b(ge == '>=')}, {lc}, {b(lt == '<')}, {sh}⟩"
             for lo, hi, ge, lc, lt, sh in axes) + "]",
-        "/-- `_get_cell_index`: (output variable, coordinate variable, `_min_coord` axis). -/",
-        "def cellIndex : List (String × String × Nat) := [" + ", ".join(f'("{a}", "{c}", {n})' for a, c, n in idx) + "]",
+        "/-- the cell-index helper: (position of the output parameter, position of the coordinate parameter, origin axis). -/",
+        "def cellIndex : List (Nat × Nat × Nat) := [" + ", ".join(f"({a}, {c}, {n})" for a, c, n in idx) + "]",
         "/-- the comparison in `if sq_dist ? sq_radius` -/",
         f'def distCmp : String := "{cmp_}"',
         "/-- `cell_count = ((max-min)/cell_size + cellCountPlus).astype(int)` -/",
@@ -278,14 +612,15 @@ def gen_lean():
         f"def bufLen : Nat × Nat × Nat := ({buf[0]}, {buf[1]}, {buf[2]})",
         "/-- default `amount` of `repeat_box_coord` (images per axis = 2*amount+1) -/",
         f"def repeatAmount : Nat := {amount}",
-        "/-- A function of the source: header (with the default argument values) and its statements",
-        "(indentation, text; comments, docstrings, blank lines dropped; string literals replaced by S). -/",
+        "/-- A function of the source in alpha-normalised form: private helpers H0, H1, … (order of first call from the public",
+        "entry points), private attributes A0, A1, …, locals and parameters of private helpers v0, v1, … (order of first binding);",
+        "comments, docstrings, annotations (box.py), `assert`s (box.py), message arguments of `raise` and string literals dropped. -/",
         "structure Fn where",
         "  header : String",
         "  body : List (Nat × String)",
         "  deriving DecidableEq, Repr"]
-    for ident, lit in _source_lean():
-        body.append(f"def {ident} : Fn := {lit}")
+    for ident, head, st in fns:
+        body.append(f"def {ident} : Fn := {_fn_literal(head, st)}")
     body += ["end BiotiteModel.Gen.C14", ""]
     return {"BiotiteModel/Gen/C14.lean": "\n".join(body)}
 
